@@ -2335,7 +2335,10 @@ class LazyStackedTensorDict(TensorDictBase):
                 for (i, _idx), mask in _zip_strict(converted_idx.items(), mask_unbind):
                     if mask.any():
                         if mask.all() and self.tensordicts[i].ndim == 0:
-                            result.append(self.tensordicts[i])
+                            # a tensordict without batch dims cannot take the 0-dim mask: apply the rest of the index
+                            rest = tuple(x for x in _idx if x is not mask)
+                            member = self.tensordicts[i]
+                            result.append(member[rest] if rest else member)
                         else:
                             result.append(self.tensordicts[i][_idx])
                             result[-1] = result[-1].squeeze(cat_dim)
